@@ -124,6 +124,8 @@ class ExprMixin:
     def module_global(self, mod, name):
         if mod is None:
             return NotImplemented
+        if ('%s.%s' % (mod.name, name)) in self.reg.opaques:
+            return ModuleVal('$opaque:%s.%s' % (mod.name, name))
         if name in mod.defs:
             node = mod.defs[name]
             if isinstance(node, ast.ClassDef):
@@ -240,6 +242,12 @@ class ExprMixin:
         # string formatting
         if op == '%' and (isinstance(a, str) or ka == KStr):
             return [(st, self.str_percent(a, b))]
+        def _viewset(x):
+            if isinstance(x, tuple) and x and x[0] == 'view' and x[1] == 'keys':
+                return SVal(KSet(x[2].kind.key), [x[2].t[0]])
+            return x
+        a, b = _viewset(a), _viewset(b)
+        ka, kb = ops.kind_of(a), ops.kind_of(b)
         if isinstance(ka, (KSet,)) or isinstance(kb, KSet):
             return [(st, self.set_binop(st, op, a, b))]
         if isinstance(a, TupleVal) and op == '+' and isinstance(kb, KList):
@@ -585,6 +593,8 @@ class ExprMixin:
 
     def module_attr(self, mv, attr):
         name = mv.name
+        if name.startswith('$opaque:'):
+            return FuncVal('builtin', qual='opaque.' + name[8:] + '.' + attr)
         if name.startswith('treadmill'):
             full = name + '.' + attr
             if frontend.module_exists(full):
